@@ -92,6 +92,8 @@ PROPS = {
     },
     "C14": {
         "design_ref": "DESIGN.md §3 C14",
+        # q14_waiting_shard_add_step needs ~170 s on an idle 16-core machine: keep a wide margin on loaded hosts
+        "tiers": {"quick": {"harness_timeout_s": 900}},
         "functions_encoded": ["helpers::buffers::circular::CircularBuf::{new,next,take,close,len,can_read,can_write,is_closed,capacity,range,inc,mask,wrap}", "circular::Next::write", "<[u8] as BufWriteable>::write",
                               "helpers::buffers::ordering_sender::WaitingShard::{add,wake}", "ordering_sender::State::{new,write,take,close,save_waker,wake}", "<M: Serializable as BufWriteable>::write", "unordered_receiver::OperatingState::{poll_next (end of stream; record served from the spare buffer, Ok and decoding error), add_waker, wake_next}, unordered_receiver::Spare::read"],
         "bounds": "inductive step from an arbitrary state satisfying the representation invariant (all cursor positions incl. wrap-around, all contents, open/closed), one symbolic operation; (capacity, write, read) in {(4,2,2),(4,2,4),(6,2,4),(6,3,3),(3,1,2),(8,2,4)} quick, plus (8,1,8),(16,4,8),(12,3,6) thorough; histories of any length follow by induction for these triples; waker bookkeeping of the ordered sender as single steps from an arbitrary shard with 0, 1 or 2 parked wakers (symbolic indices and woken_at); receiver: two consecutive polls over a 2-byte spare buffer with arbitrary contents (1-byte Fp31 records, cursor 0, ring capacity 2, the following request parked)",
